@@ -201,7 +201,7 @@ func (s *session) HandleStartup(ctx context.Context) (err error) {
 		WithAddress(s.immudbHost).
 		WithPort(s.immudbPort).
 		WithDisableIdentityCheck(true).
-		WithDialOptions([]grpc.DialOption{grpc.WithTransportCredentials(transportCredentials)})
+		WithDialOptions(append([]grpc.DialOption{grpc.WithTransportCredentials(transportCredentials)}, simDialOptions()...))
 
 	s.client = client.NewClient().WithOptions(opts)
 
